@@ -10,9 +10,9 @@ use super::super::progcheck::*;
 use super::Meta;
 
 pub const META: Meta = Meta {
-    rule: "(positions, exhaustive) 27 representative values (false true 0 1 -1 0.0 -0.0 1.5 NaN inf null char(0) 'a' byte(0) byte(7) \"\" \"x\" \"0\" [] [0] [[]] map{} map{0:0} \
+    rule: "(positions, exhaustive) 30 representative values (false true 0 1 -1 0.0 -0.0 1.5 NaN inf null char(0) 'a' byte(0) byte(7) \"\" \"x\" \"0\" [] [0] [[]] map{} map{0:0} \
 a builtin, a closure, an error object, [null]) each in every truthiness position: !v, !!v, `if v` as value and statement, `while v` (body breaks after one probe), v && probe, v || probe; \
-(pairs, exhaustive) all 27x27 ordered pairs for a && b and a || b with a side-effect probe around b (evaluated iff stated; result must be the operand value, not a boolean); \
+(pairs, exhaustive) all 30x30 ordered pairs for a && b and a || b with a side-effect probe around b (evaluated iff stated; result must be the operand value, not a boolean); \
 (nested, proptest) random trees of && || ! over the representatives with probes on every leaf. Oracle: the documented table (docs/language/operators.md) as implemented by the \
 reference interpreter. Non-trivial: the value kind is not bool, or the pair mixes a falsey and a truthy operand. Distinct by source-text hash. \
 (the filter-pattern position is exercised end to end by C20)",
@@ -40,6 +40,10 @@ pub fn reps() -> Vec<E> {
         E::Null,
         E::Char('\0'),
         E::Char('a'),
+        // code points whose low byte is zero: only U+0000 itself is falsey
+        E::Char('\u{100}'),
+        E::Char('\u{2200}'),
+        E::Char('\u{10000}'),
         E::Byte(0),
         E::Byte(7),
         E::Str("".into()),
@@ -185,6 +189,25 @@ fn filter_patterns(ctx: &mut Ctx) {
             Err(_) => continue,
         };
         let text = render_expr(e);
+        // (form 2: the action declares a local, and an earlier filter has left a truthy value in that stack slot:
+        //  a falsey pattern must still select nothing, a truthy one runs its action and selects nothing either)
+        {
+            let src = format!("@ true {{ let stale = 7; }}\n@ {} {{ let q = 1; eprintln(\"T\"); }}\n", text);
+            ctx.case(hash_str(&src), true);
+            ctx.class("filter-pattern");
+            let run = e2e::run(Opts::new(vec![e2e::script_file("c06-filter.p2", &src)]).stdin(Stdin::Bytes(input.clone())));
+            if run.spawn_error.is_none() && !run.timed_out {
+                let want_err = if truthy { "T\nT\n" } else { "" };
+                if run.crashed().is_some() || run.err_text() != want_err || run.stdout.len() != 24 {
+                    ctx.report(Violation::new(
+                        "filter-patterns",
+                        format!("filter-pattern:action-with-local:{}", if truthy { "truthy" } else { "falsey" }),
+                        format!("pattern `{}` ({}), action with a local after a filter that left a truthy local behind: stderr {:?} (expected {:?}), stdout {} bytes (expected the 24-byte header only)\n{}", text, if truthy { "truthy" } else { "falsey" }, run.err_text(), want_err, run.stdout.len(), src),
+                        json!({"filter_pattern": true, "src": src, "truthy": truthy, "with_action": true}),
+                    ));
+                }
+            }
+        }
         for with_action in [true, false] {
             let src = if with_action { format!("@ {} {{ eprintln(\"T\"); }}\n", text) } else { format!("@ {}\n", text) };
             ctx.case(hash_str(&src), true);
